@@ -151,6 +151,134 @@ def len_atom(t):
     return list(cands.values())
 
 
+def byte_length(t, N):
+    """BLEN: the number of bytes of a header assembled in memory, as a term over N = len(header_dict) -- ASCII text (`.encode()`
+    keeps the length), cards formatted `:<80`, `''.join` of a list of cards (a comprehension over the dictionary's items plus
+    appended cards), `ljust`, `bytearray(n)` / `bytes(n)`, concatenation, conditional expressions.  None when t is not of these
+    forms."""
+    a = t.single_atom()
+    if a is None:
+        # a + b of byte strings (each operand once): the lengths add
+        if t.p and all(c == 1 and len(m) == 1 and m[0][1] == 1 for m, c in t.p.items()):
+            parts = [byte_length(Term.of(m[0][0]), N) for m in t.p]
+            return None if any(x is None for x in parts) else sum(parts[1:], parts[0])
+        return None
+    if a.kind in ('str', 'bytes'):
+        return Term.num(len(a.args[0]))
+    if a.kind == 'ite':
+        x, y = byte_length(a.args[1], N), byte_length(a.args[2], N)
+        return None if x is None or y is None else T.mk_ite(a.args[0], x, y)
+    if a.kind != 'call':
+        return None
+    fn, args, kw = a.args[0], a.args[1], a.args[2]
+    if fn in ('.encode', 'fstr', 'bytes', 'str') and len(args) == 1 and (not kw or fn == '.encode'):
+        if fn == 'bytes' and byte_length(args[0], N) is None and T._numeric_like(args[0]):
+            return args[0]
+        return byte_length(args[0], N)
+    if fn == 'bytearray' and len(args) == 1 and not kw:
+        return _with_lengths(args[0], N)
+    if fn == 'fmt' and len(args) == 2 and args[1].key == lift('<80').key:
+        return Term.num(80)              # (a card longer than 80 columns is a separate obligation of format_header_line)
+    if fn == '.join' and len(args) == 2 and args[0].key == lift('').key:
+        return _sum_lengths(args[1], N)
+    if fn in ('.ljust', '.rjust', '.center') and len(args) in (2, 3):
+        x = byte_length(args[0], N)
+        n = _with_lengths(args[1], N)
+        return None if x is None or n is None else T.mk_call('max', [x, n])
+    if fn == 'concat_bytes' and args:
+        parts = [byte_length(x, N) for x in args]
+        return None if any(x is None for x in parts) else sum(parts[1:], parts[0])
+    return None
+
+
+def _with_lengths(t, N):
+    """an integer expression in which len(<assembled bytes>) is replaced by its BLEN"""
+    bad = [False]
+
+    def fn(a):
+        if a.kind == 'call' and a.args[0] == 'len' and len(a.args[1]) == 1:
+            if a.args[1][0].key == sym('header_dict').key:
+                return N
+            x = byte_length(a.args[1][0], N)
+            if x is None:
+                x = _list_len(a.args[1][0], N)
+            if x is None:
+                bad[0] = True
+                return None
+            return x
+        return None
+    r = T.subst(t, fn)
+    return None if bad[0] else r
+
+
+def _sum_lengths(t, N, known=frozenset()):
+    """total length of the strings of a list: a comprehension over the items of header_dict (N of them) and appended cards"""
+    a = t.single_atom()
+    if a is None:
+        return None
+    if a.kind in ('list', 'tuple'):
+        parts = [byte_length(x, N) for x in a.args]
+        return None if any(x is None for x in parts) else sum(parts, Term.num(0))
+    if a.kind == 'call' and a.args[0] == 'mut.append' and len(a.args[1]) == 2:
+        x, y = _sum_lengths(a.args[1][0], N, known), byte_length(a.args[1][1], N)
+        return None if x is None or y is None else x + y
+    if a.kind == 'call' and a.args[0] in ('concatenate_lists', 'add_lists') and a.args[1]:
+        parts = [_sum_lengths(x, N, known) for x in a.args[1]]
+        return None if any(x is None for x in parts) else sum(parts, Term.num(0))
+    if a.kind == 'comp' and a.args[0] in ('list', 'gen') and len(a.args[2]) == 1:
+        g = a.args[2][0].single_atom()
+        if g is None or g.kind != 'tuple' or len(g.args) != 1:
+            return None                      # (a filtered comprehension: the count is not N)
+        n = N if _iterates_header(g.args[0], known) else _list_len(g.args[0], N, known)
+        x = byte_length(a.args[1], N)
+        return None if x is None or n is None else n * x
+    return None
+
+
+def _list_len(t, N, known=frozenset()):
+    """number of items of a list of cards: a comprehension over the items of header_dict (N), appended cards, literals"""
+    a = t.single_atom()
+    if a is None:
+        return None
+    if a.kind in ('list', 'tuple'):
+        return Term.num(len(a.args))
+    if a.kind == 'call' and a.args[0] == 'mut.append' and len(a.args[1]) == 2:
+        x = _list_len(a.args[1][0], N, known)
+        return None if x is None else x + 1
+    if a.kind == 'call' and a.args[0] in ('list', 'tuple') and len(a.args[1]) == 1 and not a.args[2]:
+        return _list_len(a.args[1][0], N, known)
+    if a.kind == 'comp' and a.args[0] in ('list', 'gen') and len(a.args[2]) == 1:
+        g = a.args[2][0].single_atom()
+        if g is None or g.kind != 'tuple' or len(g.args) != 1:
+            return None
+        return N if _iterates_header(g.args[0], known) else _list_len(g.args[0], N, known)
+    if _iterates_header(t, known):
+        return N
+    return None
+
+
+def _iterates_header(it, known):
+    """the iterable visits every card of header_dict once: header_dict / .items() / .keys() of it, or of a copy in which an
+    EXISTING key was re-assigned (under the test `key in header_dict`)"""
+    a = it.single_atom()
+    if a is None:
+        return False
+    if a.kind == 'ite':
+        c = a.args[0].single_atom()
+        k2 = known
+        if c is not None and c.kind == 'cmp' and c.args[0] == 'in' and c.args[2].key == sym('header_dict').key:
+            k2 = known | {c.args[1].key}
+        return _iterates_header(a.args[1], k2) and _iterates_header(a.args[2], known)
+    if a.kind == 'call' and a.args[0] in ('.items', 'items', '.keys', 'keys', 'list', 'enumerate') and len(a.args[1]) == 1:
+        return _iterates_header(a.args[1][0], known)
+    if a.kind == 'sym':
+        return a.args[0] == 'header_dict'
+    if a.kind == 'store' and len(a.args) == 3:
+        return a.args[1].key in known and _iterates_header(a.args[0], known)
+    return False
+
+
+
 def run(ctx):
     # =============================================================== D1 header size, five sites
     ctx.clause = 'D1'
@@ -162,7 +290,48 @@ def run(ctx):
     ctx.require(writes, '_make_header no longer writes to the file object')
     pads = [e for e in writes if mentions(e.data['args'][1], lambda a: a.kind == 'call' and a.args[0] == 'bytearray')]
     cards = [e for e in writes if e not in pads]
-    ctx.require(pads, '_make_header: the padding write (bytearray) was not found')
+    assembled = None
+    if not pads and all(not e.loops and e.cond().key == T.TRUE.key for e in writes):
+        # the header is assembled in memory and written with straight-line writes: BLEN, its length in bytes as a term over
+        # N = len(header_dict), takes the place of the card writes and the padding write
+        N_ = T.mk_call('len', [sym('header_dict')])
+        parts_ = [byte_length(e.data['args'][1], N_) for e in writes]
+        if all(x is not None for x in parts_):
+            assembled = sum(parts_[1:], parts_[0])
+    ctx.require(pads or assembled is not None, '_make_header: the padding write (bytearray) was not found')
+
+    class _Site:                        # a padding site: the bytearray write, or the padded arm of an assembled header
+        def __init__(self, node, pc, padterm, text):
+            self.node, self._pc, self.padterm, self._text = node, pc, padterm, text
+
+        def cond(self):
+            return self._pc
+
+        def text(self):
+            return self._text
+    pad_sites = []
+    for e in pads:
+        arg = e.data['args'][1]
+        ba = [a for a in T.all_atoms(arg).values() if a.kind == 'call' and a.args[0] == 'bytearray'][0]
+        pad_sites.append(_Site(e.node, e.cond(), ba.args[1][0], e.text()))
+    if assembled is not None:
+        cards = []
+        ta = assembled.single_atom()
+        at0 = lambda t: eval_closed(t, N_.single_atom(), 0, {})
+        if ta is not None and ta.kind == 'ite' and at0(ta.args[1]) is not None and at0(ta.args[2]) is not None \
+                and (at0(ta.args[1]) == 80) != (at0(ta.args[2]) == 80):
+            padded, plain, pc_ = (ta.args[1], ta.args[2], ta.args[0]) if at0(ta.args[2]) == 80 else (ta.args[2], ta.args[1], T.mk_not(ta.args[0]))
+            bad_ = [L for L in range(1, 65) if eval_closed(plain, N_.single_atom(), L - 1, {}) != 80 * L]
+            ctx.ob('FORMULA', 'without DIRECTIO the assembled header is exactly 80 bytes per card (END included)', mk, not bad_,
+                   {'length': pretty(plain)[:200], 'witness_cards_incl_END': bad_[:1]}, node=writes[0].node)
+            pad_sites.append(_Site(writes[0].node, pc_, padded - plain, writes[0].text()))
+        else:
+            # no conditional padding recognisable in the assembled length: every DIRECTIO header would be mis-framed
+            bad_ = [L for L in range(1, 65) if eval_closed(assembled, N_.single_atom(), L - 1, {}) is not None
+                    and eval_closed(assembled, N_.single_atom(), L - 1, {}) != 80 * L + pad_spec(L, 1)]
+            ctx.ob('RESIDUE', 'writer: the assembled header is padded to the next multiple of 512 bytes under a DIRECTIO-derived '
+                   'condition', mk, False if bad_ else None, {'length': pretty(assembled)[:300], 'witness_cards_incl_END': bad_[:1]},
+                   node=writes[0].node)
     # cards: every non-pad write is an 80-column formatted string
     for e in cards:
         arg = e.data['args'][1]
@@ -184,10 +353,8 @@ def run(ctx):
             return False
         ok = padded80(arg)
         ctx.ob('FORMULA', 'every card is written left-justified in 80 columns', mk, ok, {'arg': pretty(arg)[:200]}, node=e.node)
-    for e in pads:
-        arg = e.data['args'][1]
-        ba = [a for a in T.all_atoms(arg).values() if a.kind == 'call' and a.args[0] == 'bytearray'][0]
-        padterm = ba.args[1][0]
+    for e in pad_sites:
+        padterm = e.padterm
         las = len_atom(padterm)
         if not las and any(a.kind == 'call' and a.args[0] in ('.tell', 'tell', '.seek') for a in T.all_atoms(padterm).values()):
             # the amount of padding is computed from the position in the FILE, not from the length of this header: from the second
